@@ -385,6 +385,7 @@ func TestC17(t *testing.T) {
 		rec.Note("nested-operator universe: %d of %d models (stride %d)", n, total, stride)
 	}
 	rapid.Check(t, func(rt *rapid.T) {
+		noiseCall(rt) // one case in three is preceded by an unrelated, mostly failing call (see noise_test.go)
 		m := c17Draw(rt)
 		rg := ref.BuildPlain(m)
 		hasOp, hasTTU := false, false
